@@ -12,8 +12,39 @@ use crate::util::*;
 use mp4::*;
 use serde_json::{json, Value};
 use std::io::{Read, Seek};
+use std::sync::atomic::{AtomicU64, Ordering};
+use std::sync::{Mutex, OnceLock};
+use std::time::Instant;
 
 pub const SAT: u64 = 0x7fff_ffff;
+
+// Watchdog for executions that never return (a pure CPU loop makes no stream call, so the
+// operation budget cannot end it): the execution in progress is published here; a background
+// thread writes it as a `case` event to <trace>.hang and ends the process with code 97 once it
+// has been running for HANG_MS.
+pub const HANG_MS: u64 = 30_000;
+pub static CUR_START: AtomicU64 = AtomicU64::new(0); // ms since EPOCH0 + 1; 0 = idle
+pub static CUR: Mutex<Option<(u64, &'static str, Value, Vec<u8>)>> = Mutex::new(None);
+static EPOCH0: OnceLock<Instant> = OnceLock::new();
+fn now_ms() -> u64 {
+    EPOCH0.get_or_init(Instant::now).elapsed().as_millis() as u64 + 1
+}
+pub fn start_watchdog(hang_path: String) {
+    now_ms();
+    std::thread::spawn(move || loop {
+        std::thread::sleep(std::time::Duration::from_millis(250));
+        let st = CUR_START.load(Ordering::SeqCst);
+        if st != 0 && now_ms().saturating_sub(st) > HANG_MS {
+            let ms = now_ms() - st;
+            if let Some((base, mode, what, input)) = CUR.lock().ok().and_then(|g| g.clone()) {
+                let ev = json!({"e":"case","base":base,"mode":mode,"what":what,"n":input.len(),"status":"hang","site":"",
+                    "ops":0,"bytes":0,"budget_hit":false,"slow_ms":ms.min(SAT),"peak":0,"maxreq":0,"input":bytes_val(&input)});
+                let _ = std::fs::write(&hang_path, serde_json::to_vec(&ev).unwrap_or_default());
+            }
+            std::process::exit(97);
+        }
+    });
+}
 
 pub struct Obs {
     pub status: &'static str, // ok | err | panic
@@ -268,6 +299,7 @@ pub fn run_base(idx: u64, base: &Value, out: &mut Out) -> (u64, u64, [u64; 4]) {
                 let _ = std::fs::write(p, serde_json::to_vec(&bytes_val(b)).unwrap_or_default());
             }
         }
+        CUR_START.store(now_ms(), Ordering::SeqCst);
         let mut o = execute(b, init_reader.as_ref());
         // wall-clock guard: only an execution that is slow three times in a row counts (a loaded
         // machine must not raise an alarm)
@@ -277,10 +309,19 @@ pub fn run_base(idx: u64, base: &Value, out: &mut Out) -> (u64, u64, [u64; 4]) {
                 o.ms = o.ms.min(again.ms);
             }
         }
+        CUR_START.store(0, Ordering::SeqCst);
         o
     };
+    let go = |blk: &mut Block, b: &[u8], what: Value| {
+        if let Ok(mut g) = CUR.lock() {
+            *g = Some((idx, mode, what.clone(), b.to_vec()));
+        }
+        let o = run(b);
+        blk.last_input = b.to_vec();
+        blk.add(o, what);
+    };
     // the unmodified input
-    blk.last_input = bytes.clone(); blk.add(run(&bytes), json!("unmodified"));
+    go(&mut blk, &bytes, json!("unmodified"));
     let len = bytes.len();
     let mut phases = [0u64; 4];
     let mark = |blk: &Block, prev: u64| blk.total - prev;
@@ -299,7 +340,7 @@ pub fn run_base(idx: u64, base: &Value, out: &mut Out) -> (u64, u64, [u64; 4]) {
                 if b == bytes {
                     continue;
                 }
-                blk.last_input = b.clone(); blk.add(run(&b), json!([[off, w, big(v)]]));
+                go(&mut blk, &b, json!([[off, w, big(v)]]));
             }
             off += stride;
         }
@@ -320,7 +361,7 @@ pub fn run_base(idx: u64, base: &Value, out: &mut Out) -> (u64, u64, [u64; 4]) {
                 if b == bytes {
                     continue;
                 }
-                blk.last_input = b.clone(); blk.add(run(&b), json!([[o, w, big(v)]]));
+                go(&mut blk, &b, json!([[o, w, big(v)]]));
             }
         }
     }
@@ -339,7 +380,7 @@ pub fn run_base(idx: u64, base: &Value, out: &mut Out) -> (u64, u64, [u64; 4]) {
             let mut b = bytes.clone();
             put(&mut b, o1, w1, v1);
             put(&mut b, o2, w2, v2);
-            blk.last_input = b.clone(); blk.add(run(&b), json!([[o1, w1, big(v1)], [o2, w2, big(v2)]]));
+            go(&mut blk, &b, json!([[o1, w1, big(v1)], [o2, w2, big(v2)]]));
         }
     }
     phases[2] = mark(&blk, prev);
@@ -407,7 +448,7 @@ pub fn run_base(idx: u64, base: &Value, out: &mut Out) -> (u64, u64, [u64; 4]) {
                 }
             }
         }
-        blk.last_input = b.clone(); blk.add(run(&b), json!(what));
+        go(&mut blk, &b, json!(what));
     }
     phases[3] = mark(&blk, prev);
     blk.flush();
